@@ -27,9 +27,10 @@ class C07(vlib.Check):
     per_case_timeout = 20
     rule = ('exhaustive (digest mode, every needle x both case modes x every start/max in {0..size+1, 2^63, SIZE_MAX} x '
             'the p/s/z/char needle forms of find and find_last, plus contains/starts_with/ends_with): all haystacks of '
-            'length <= 6 over {a,b,A} against all needles of length <= 3 (thorough: <= 8 against <= 4); all haystacks of '
-            'length <= 4 over {a,b,A,NUL,C3} against needles of length <= 2 (thorough: <= 6 against <= 3) and a seeded '
-            'sample of longer ones over {a,b,A,NUL,C3,E3}; directed line cases: null / empty needle, empty haystack, needle == '
+            'length <= 6 over {a,b,A} against all needles of length <= 3 (thorough: length <= 7 against <= 4 and length 8 '
+            'against <= 3); all haystacks of length <= 4 over {a,b,A,NUL,C3} against needles of length <= 2 (thorough: '
+            '<= 5 against <= 3, 3000 sampled of length 6 against <= 2) and a seeded sample of longer ones (up to 24) over '
+            '{a,b,A,NUL,C3,E3} against needles of length <= 2; directed line cases: null / empty needle, empty haystack, needle == '
             'haystack, needle longer than haystack, self-overlapping needles, first-unit hit whose rest runs past the end, '
             'limits cutting an occurrence, NUL in haystack / needle, all 256 byte values as one-unit needle; seeded long '
             'haystacks (up to 600) with planted needles. non-trivial = haystack and needle non-empty; distinct = distinct case line')
@@ -66,21 +67,22 @@ class C07(vlib.Check):
                 yield 'findl %s %s %02x %d' % (cs, h, v, SIZE_MAX)
                 yield 'has %s %s %02x' % (cs, h, v)
         # --- exhaustive sweeps (digest mode)
-        l3, n3 = (8, 4) if thorough else (6, 3)
-        cnt = needle_count(3, n3)
-        for h in strings_upto([0x61, 0x62, 0x41], l3):
-            yield 'sweep %s %s 0 %d' % (hx(h), S3, cnt)
-        l5, n5 = (6, 3) if thorough else (4, 2)
-        cnt = needle_count(5, n5)
-        for h in strings_upto([0x61, 0x62, 0x41, 0x00, 0xc3], l5):
-            if all(c in (0x61, 0x62, 0x41) for c in h) and h:
+        a3 = [0x61, 0x62, 0x41]
+        for h in strings_upto(a3, 8 if thorough else 6):
+            nmax = 3 if (not thorough or len(h) == 8) else 4
+            yield 'sweep %s %s 0 %d' % (hx(h), S3, needle_count(3, nmax))
+        a5 = [0x61, 0x62, 0x41, 0x00, 0xc3]
+        for h in strings_upto(a5, 5 if thorough else 4):
+            if all(c in a3 for c in h) and h:
                 continue        # already covered above with longer needles
-            yield 'sweep %s %s 0 %d' % (hx(h), S5, cnt)
-        a6 = [0x61, 0x62, 0x41, 0x00, 0xc3, 0xe3]
-        cnt = needle_count(6, 3 if thorough else 2)
+            yield 'sweep %s %s 0 %d' % (hx(h), S5, needle_count(5, 3 if thorough else 2))
+        a6 = a5 + [0xe3]
+        if thorough:
+            for _ in range(3000):
+                yield 'sweep %s %s 0 %d' % (hx(rand_text(rng, 6, a5)), S5, needle_count(5, 2))
         for _ in range(600 if not thorough else 6000):
             h = rand_text(rng, rng.choice([5, 6, 7, 8, 9, 12, 15, 16, 17, 24]), a6)
-            yield 'sweep %s %s 0 %d' % (hx(h), S6, cnt)
+            yield 'sweep %s %s 0 %d' % (hx(h), S6, needle_count(6, 2))
         # --- seeded long haystacks with planted needles
         for _ in range(700 if not thorough else 10000):
             alpha = rng.choice([a6, [0x61, 0x62], list(range(256)), [0x61, 0x41, 0x00]])
